@@ -40,6 +40,96 @@ type built struct {
 	nextKey  int
 	evSeen   map[string]bool // hashes of evidence committed in blocks so far
 	saturate bool            // total power at the maximum: no additions
+	farApplied int
+	pool       sm.EvidencePool // the real pool when realPool
+	far      map[int64][]farStamp // per height: commit slots of a <1/3 minority re-stamped far away from the honest votes
+}
+
+// farStamp: slot of the commit for a height whose (validly signed) precommit timestamp lies centuries away from the
+// block - vote timestamps are only required to be valid protobuf timestamps (years 1..9999).
+type farStamp struct {
+	slot int
+	kind string
+}
+
+var farKinds = []string{"+2^64ns", "-2^64ns", "+2^63ns", "-2^63ns", "+300y", "-300y", "year1", "year9999", "unixnano-max+1"}
+
+func farTime(ts time.Time, kind string) time.Time {
+	// stay inside the protobuf timestamp range (years 1..9999) with room for the small shifts other perturbations add
+	lo, hi := time.Date(1, 2, 1, 0, 0, 1, 0, time.UTC), time.Date(9999, 11, 30, 23, 59, 59, 999999999, time.UTC)
+	clamp := func(x time.Time) time.Time {
+		if x.Before(lo) {
+			return lo
+		}
+		if x.After(hi) {
+			return hi
+		}
+		return x
+	}
+	const half = time.Duration(1<<63 - 1)
+	switch kind {
+	case "+2^64ns":
+		return clamp(ts.Add(half).Add(half).Add(2))
+	case "-2^64ns":
+		return clamp(ts.Add(-half).Add(-half).Add(-2))
+	case "+2^63ns":
+		return clamp(ts.Add(half).Add(1))
+	case "-2^63ns":
+		return clamp(ts.Add(-half).Add(-1))
+	case "+300y":
+		return clamp(ts.AddDate(300, 0, 0))
+	case "-300y":
+		return clamp(ts.AddDate(-300, 0, 0))
+	case "year1":
+		return lo
+	case "year9999":
+		return hi
+	}
+	return time.Unix(0, 1<<63-1).Add(1).UTC()
+}
+
+// genFar draws far-away timestamps for present slots of the commit by vals whose total power stays below one third.
+func genFar(t *rapid.T, vals *types.ValidatorSet, flags []types.BlockIDFlag, label string) []farStamp {
+	var out []farStamp
+	total := powerOf(vals)
+	used := new(big.Int)
+	n := rapid.IntRange(1, 3).Draw(t, label+".nfar")
+	for j := 0; j < n; j++ {
+		i := rapid.IntRange(0, len(vals.Validators)-1).Draw(t, label+".farslot")
+		if i < len(flags) && flags[i] == types.BlockIDFlagAbsent {
+			continue
+		}
+		dup := false
+		for _, f := range out {
+			dup = dup || f.slot == i
+		}
+		nu := new(big.Int).Add(used, big.NewInt(vals.Validators[i].VotingPower))
+		if dup || new(big.Int).Mul(nu, big.NewInt(3)).Cmp(total) >= 0 {
+			continue
+		}
+		used = nu
+		out = append(out, farStamp{i, rapid.SampledFrom(farKinds).Draw(t, label+".farkind")})
+	}
+	return out
+}
+
+// restamp returns a copy of commit c (by vals) whose slots fs carry far-away timestamps, re-signed by their validators.
+func restamp(chainID string, c *types.Commit, vals *types.ValidatorSet, fs []farStamp) *types.Commit {
+	nc := cloneCommit(c)
+	for _, f := range fs {
+		if f.slot >= len(nc.Signatures) || nc.Signatures[f.slot].BlockIDFlag == types.BlockIDFlagAbsent {
+			continue
+		}
+		s := &nc.Signatures[f.slot]
+		s.Timestamp = farTime(s.Timestamp, f.kind)
+		v := &types.Vote{Type: tmproto.PrecommitType, Height: nc.Height, Round: nc.Round, Timestamp: s.Timestamp}
+		if s.BlockIDFlag == types.BlockIDFlagCommit {
+			v.BlockID = nc.BlockID
+		}
+		signVote(lib.KeyIndex(vals.Validators[f.slot].Address), chainID, v)
+		s.Signature = v.Signature
+	}
+	return nc
 }
 
 func (b *built) ValsAt(h int64) *types.ValidatorSet {
@@ -123,6 +213,7 @@ func newBuilt(spec lib.ChainSpec, withPool bool, prof string, saturate bool) (*b
 			return nil, err
 		}
 		lp.p = p
+		b.pool = p
 	}
 	b.c = c
 	return b, nil
@@ -437,6 +528,17 @@ func (b *built) genPlan(t *rapid.T, label string, o genOpts, bias string) *lib.H
 	if b.realPool && c.Tip() >= c.Spec.InitialHeight && rapid.IntRange(0, 9).Draw(t, label+".doev") < 4 {
 		p.Evidence = b.genValidEvidence(t, label, rapid.IntRange(1, 2).Draw(t, label+".nev"))
 	}
+	if rapid.IntRange(0, 9).Draw(t, label+".dofar") < 2 {
+		if lib.IsKnown(findingWrap) {
+			// listed as known and unrepaired: the class is excluded by construction, the search goes on behind it
+			lib.ExcludedByKnown(findingWrap)
+			return p
+		}
+		if b.far == nil {
+			b.far = map[int64][]farStamp{}
+		}
+		b.far[c.NextHeight()] = genFar(t, c.State.Validators, p.Flags, label)
+	}
 	return p
 }
 
@@ -478,11 +580,51 @@ func (b *built) genValidEvidence(t *rapid.T, label string, n int) []types.Eviden
 func (b *built) advance(p *lib.HeightPlan) error {
 	h := b.c.NextHeight()
 	b.plans[h] = p
+	pre := b.c.State
 	if err := b.c.Advance(p); err != nil {
 		return fmt.Errorf("height %d: %w", h, err)
 	}
 	for _, e := range p.Evidence {
 		b.evSeen[string(e.Hash())] = true
 	}
+	// the time of the block just built by the correct proposer must be the reference median of its LastCommit
+	if blk := b.c.Blocks[h]; pre.LastBlockHeight != 0 {
+		if m, ok := refMedian(commitEntries(blk.LastCommit, pre.LastValidators, false)); !ok || !m.Equal(blk.Time) {
+			return fmt.Errorf("height %d: the proposer's block time %v is not the weighted median %v of its LastCommit", h, blk.Time, m)
+		}
+	}
+	// a minority re-stamps its precommits far away (kept only if a valid successor still exists: median after block time)
+	if fs := b.far[h]; len(fs) > 0 {
+		vals := pre.Validators
+		nc := restamp(pre.ChainID, b.c.Commits[h], vals, fs)
+		if m, ok := refMedian(commitEntries(nc, vals, false)); ok && m.After(b.c.Blocks[h].Time) {
+			b.c.Commits[h] = nc
+			b.farApplied++
+		}
+	}
+	return nil
+}
+
+// advanceWith commits and applies an externally built block (the proposer's) as the next block of the chain.
+func (b *built) advanceWith(p *lib.HeightPlan, blk *types.Block) error {
+	c := b.c
+	h := c.NextHeight()
+	if blk.Height != h {
+		return fmt.Errorf("block height %d, next height %d", blk.Height, h)
+	}
+	b.plans[h] = p
+	c.App.Mu.Lock()
+	c.App.Plans[h] = p
+	c.App.Mu.Unlock()
+	parts := blk.MakePartSet(types.BlockPartSizeBytes)
+	id := types.BlockID{Hash: blk.Hash(), PartSetHeader: parts.Header()}
+	commit := lib.SignCommit(c.State.ChainID, h, p.Round, id, c.State.Validators, p.Flags, blk.Time, p.TsOffsets)
+	c.BlockStore.SaveBlock(blk, parts, commit)
+	st, retain, err := c.Exec.ApplyBlock(c.State, id, blk)
+	if err != nil {
+		return err
+	}
+	c.State = st
+	c.Blocks[h], c.Parts[h], c.IDs[h], c.Commits[h], c.States[h], c.Retain[h] = blk, parts, id, commit, st.Copy(), retain
 	return nil
 }
